@@ -9,6 +9,14 @@ COMMON_NOTE = ("hand-written Gallina model tied to /repo by differential executi
                "axioms where values (which contain binary32 numbers) are involved; named in the evidence")
 
 CLAIMS = {
+ "C01": dict(
+   text="Theorems (all expressions, all nesting depths, all stores): whatever the trampolined evaluator of the model returns for an expression, an operand list, a tail expression or a procedure application - a value, an error or a panic, together with the state reached - is derivable in the direct-style big-step semantics of Spec/EvalSpec.v (innermost binding, operands left to right exactly once, only #f false, fresh frame per call with internal definitions in order, (apply p a.. l) = (p a.. l1..ln)); in particular the chain of tail calls run by the trampoline loop is the nested evaluation the rules describe. Proved by induction on the fuel for nine mutually recursive functions; no bound on program size. The model is tied to interpreter.rs/parser.rs by evaluating seeded type-directed random programs form by form on both sides and comparing values, tick traces (order and multiplicity of operand evaluation) and output.",
+   note=COMMON_NOTE + "; terminating programs (OutOfFuel excluded); the converse direction (every derivation is found by the evaluator given enough fuel) and determinism of the rules are not yet proved; builtins enter through the shared function builtin_call",
+   technique="Coq proof: soundness of the trampolined evaluator for a big-step R7RS semantics (fuel induction) + differential correspondence on random typed programs"),
+ "C08": dict(
+   text="Theorems: the evaluator reports an error, with the state in which it was raised, only where the context-free big-step rules raise it (soundness, all calling contexts at once because the rules have no notion of context: direct call, tail call through the trampoline, apply, calls from library closures); every application checks the argument count (on the rules, and directly on the trampoline); a call yields a value only if its operator evaluated to a procedure, a reference/assignment only if the variable is bound; along any evaluation, failing or not, no frame and no vector disappears (effects are kept, nothing is rolled back). Tied to the code by valid random programs with one injected fault: 8 fault kinds x 5 calling contexts x position, with an effect completed before the fault and forms reading the state afterwards; kinds compared model vs implementation and against the kind the fault calls for.",
+   note=COMMON_NOTE + "; single-fault programs; error locations are C15's subject and are not compared here",
+   technique="Coq proof (soundness for context-free big-step rules, arity and inversion lemmas, state monotonicity by mutual induction on derivations) + fault-injection correspondence"),
  "C09": dict(
    text="Theorems (Coq, all operands, no size bound): an exact result of + - * / abs is the exact rational result in Q; division by exact zero is an error iff the divisor is zero; floor/ceiling are Qfloor/Qceiling; floor-quotient/remainder satisfy n = d*q + r with q = floor(n/d); operands below 2^15 always give exact results; every result is in normal form; an inexact operand or an unrepresentable exact result gives the binary32 operation on the converted operands. The model (Model/Num.v on Flocq binary32) is tied to src/values.rs by executing both on the complete numeric grid and seeded random operands on every run, compared bit for bit.",
    note="Flocq's four classical/real axioms (named in evidence); Rust f32 = IEEE binary32 (validated bit-for-bit each run); hand-written model tied by differential execution through the public Number API",
